@@ -29,7 +29,7 @@ _OPS_NOTE = ("Trusted: TLC, the TLA+ transcription of the oracle layer (LWW per 
 CHECKS = {
     "C04": dict(
         engine="tlc + h-crdt",
-        technique="TLC exhaustive model checking of MC_OrswotOps + edge-complete replay of the state graph on the real OrSWotSet + TLC trace validation of every keyspace actor of the repository's own test suites",
+        technique="TLC exhaustive model checking of MC_OrswotOps + edge-complete replay of the state graph on the real OrSWotSet (one configuration at the stamp's own resolution of 4 ms, times on the cut-off and one tick either side) + TLC trace validation of every keyspace actor of the repository's own test suites and of long-lived actors under random request streams",
         text=("TLC explores every arrival order of inserts/deletes (1 and 2 sources, bounded keys/origins/times) on the faithful "
               "model with LWW-per-key, return-value and will_apply invariants; then every transition of the bounded state graph is "
               "re-executed on the real OrSWotSet<N> and get()/return value/will_apply are compared with the specification's oracle. "
@@ -40,7 +40,7 @@ CHECKS = {
         note=_OPS_NOTE),
     "C08": dict(
         engine="tlc + h-crdt",
-        technique="TLC exhaustive model checking (purge enabled in every state) + edge-complete replay on the real OrSWotSet + cluster behaviours replayed on real nodes with TLC trace validation of their keyspace actors",
+        technique="TLC exhaustive model checking (purge enabled in every state) + edge-complete replay on the real OrSWotSet + cluster behaviours replayed on real nodes with TLC trace validation of their keyspace actors + TLC trace validation of long random request streams (purges, storage failures, clock jumps) on long-lived real actors",
         text=("Global clause: Cluster.tla with Purge enabled at any moment and time advancing under the timeliness guard converges to last-writer-wins over "
               "all issued operations (the never-purging outcome), exhaustively for a small config and by simulation with real-node replay beyond. "
               "Local clauses: on every reachable set of the bounded universes a purge leaves get() unchanged, removes only tombstones, "
@@ -132,7 +132,7 @@ CHECKS = {
         note="Value space (u64 ids, payload bytes) covered by rotating boundary values, not exhaustively. Quick tier samples every 8th edge on SQLite/LMDB. Bulk calls may list an id twice (the last version stays). LMDB environments are never closed in-process (unsafe while datacake-lmdb's background thread exits); reopen edges are judged in-process on a new handle and by a fresh process opening the files; long LMDB runs are split over child processes. Random call sequences from all four backends are validated by Trace_Storage.tla; they include a bulk write larger than the LMDB backend's map: a refused bulk write must leave exactly the documents it reports as written (event put_failed), also after the reopen that follows."),
     "C02": dict(
         engine="tlc + h-ec",
-        technique="TLC exhaustive model checking of Keyspace.tla (actor + storage with every storage outcome) + edge-complete replay on a real KeyspaceActor over a fault-injecting MemStore",
+        technique="TLC exhaustive model checking of Keyspace.tla (actor + storage with every storage outcome) + edge-complete replay on a real KeyspaceActor over a fault-injecting MemStore + long random request streams on long-lived real actors (set vs storage after every request, TLC trace validation of the recorded events)",
         text=("Keyspace.tla models each actor message as will_apply filter -> storage call (ok / failed with nothing written / failed part-way with the reported ids "
               "written) -> set update, with arbitrary timestamps, both sources, re-deliveries and bulk requests carrying the same key twice; TLC checks the "
               "agreement invariant in every reachable state. Every transition is re-executed on a real actor put into the transition's source state; "
